@@ -6,6 +6,7 @@ package main
 
 import (
 	"fmt"
+	"strings"
 
 	"github.com/tobgu/qframe"
 	"github.com/tobgu/qframe/config/newqf"
@@ -77,6 +78,21 @@ func corpusCases(s *hlib.Suite) {
 			cd := "[(" + hlib.Str("c") + ", DStrings " + strList([]string{"a", "b", "a"}) + ")]"
 			ce := "[(" + hlib.Str("c") + ", " + strList([]string{"a", "b", "a"}) + ")]"
 			s.Add(fmt.Sprintf("FNew %s [] %s %s", cd, ce, coqFrame(qframe.VerifDump(out))), desc2, true)
+		}
+	}
+	// F25 (repaired): a frame read from a header-only CSV document has untyped zero-length columns; Equals must
+	// still be reflexive on it
+	{
+		desc := map[string]interface{}{"op": "equals", "corpus": "F25", "frame": "ReadCSV of the header-only document A,B", "props": []string{"C09"}}
+		hf := qframe.ReadCSV(strings.NewReader("A,B\n"))
+		if hf.Err != nil {
+			s.Fail(s.NextID(), "ReadCSV of a header-only document failed: "+hf.Err.Error(), desc, "")
+		} else if eq, reason := hf.Equals(hf); !eq {
+			s.Fail(s.NextID(), "Equals is not reflexive on a frame without rows read from a header-only CSV document: "+reason, desc, "")
+		}
+		hg := qframe.ReadCSV(strings.NewReader("A,B\n"))
+		if eq, _ := hf.Equals(hg); hf.Err == nil && hg.Err == nil && !eq {
+			s.Fail(s.NextID(), "two frames read from the same header-only CSV document are not Equal", desc, "")
 		}
 	}
 	s.Count("corpus-cases")
